@@ -231,6 +231,12 @@ func dateBounds(sql string) (lo int64, hasLo bool, hi int64, hasHi bool) {
 			continue
 		}
 		d := floorDiv(t.Unix(), 86400)
+		switch m[1] { // strict comparisons: the effective bound is one day further in
+		case ">":
+			d++
+		case "<":
+			d--
+		}
 		if m[1][0] == '>' {
 			if !hasLo || d > lo {
 				lo, hasLo = d, true
